@@ -575,6 +575,12 @@ def gen_c15(seed, shard, n_hist, tier):
             else:
                 h.add(f"I {z} {h.sid} {h.sid * 10}")
                 h.sid += 1
+        if rng.random() < 0.4:
+            # drain one end in key order: the outermost leaves merge, the outermost inner branch underflows and
+            # borrows from / merges with its sibling - which a FREEB / ROOT edit above may have freed or re-pointed
+            ks = list(range(0, 4 * cap)) if rng.random() < 0.5 else list(range(U - 1, max(U - 1 - 4 * cap, -1), -1))
+            for k in ks:
+                h.add(f"R {k}")
         h.add("IT items,fast,keys,values 0:40 1:40 2:40 3:40")
         z = rng.randrange(U)
         for line in rng.sample([f"M {z} {h.sid * 10 + 1}", f"RI {rng.randrange(U)}", f"GM {z} {rng.randrange(U)}", f"TG {z}", f"GI {z}", f"D {z} 7", f"G {z}"], 3):
